@@ -29,10 +29,12 @@ def gen_program(rng, clock=None, n_events=None, with_bad=True, with_cancel=True,
     init = []
     tags = []
     counter = [0]
+    pct = rng.random() < 0.35
 
     def new_tag():
         counter[0] += 1
-        return f"e{counter[0]}"
+        # some tags carry characters that are special in format strings: error reports are built from them
+        return f"e{counter[0]}" + ("%" if pct and counter[0] % 4 == 1 else "")
 
     def sched_action(cur, from_init):
         """one scheduling action issued at time `cur` (numeric); returns (action, child tag, child time|None)"""
